@@ -57,3 +57,10 @@ Proof.
   cbv zeta. split; [|split; vm_compute; reflexivity].
   cbn. repeat split; try (intros H; discriminate H); try constructor.
 Qed.
+
+(* Ending and starting the player again leaves no carry-over: the new session's stream is exactly the
+   frame stream of the fresh source. *)
+Theorem restart_is_fresh : forall loop x fs,
+  stream loop (st' (step x (Restart fs))) = concat (map fbytes (good loop fs)) /\ cur_loop (st' (step x (Restart fs))) = 0.
+Proof. intros. split; reflexivity. Qed.
+Print Assumptions restart_is_fresh.
